@@ -25,6 +25,8 @@ from . import t3
 from . import t5run
 
 ROOT = os.path.dirname(os.path.dirname(os.path.dirname(os.path.abspath(__file__))))
+SP2OBJ = {"VectorSympy2D": "VectorObject2D", "VectorSympy3D": "VectorObject3D", "VectorSympy4D": "VectorObject4D",
+          "MomentumSympy2D": "MomentumObject2D", "MomentumSympy3D": "MomentumObject3D", "MomentumSympy4D": "MomentumObject4D"}
 NP2OBJ = {"VectorNumpy2D": "VectorObject2D", "VectorNumpy3D": "VectorObject3D", "VectorNumpy4D": "VectorObject4D",
           "MomentumNumpy2D": "MomentumObject2D", "MomentumNumpy3D": "MomentumObject3D", "MomentumNumpy4D": "MomentumObject4D"}
 GEN = {"px": "x", "py": "y", "pt": "rho", "pz": "z", "E": "t", "e": "t", "energy": "t", "M": "tau", "m": "tau", "mass": "tau"}
@@ -89,14 +91,33 @@ class Runner:
         VN.VectorNumpy.lib = lib
         self.A.O.VectorObject.lib = lib
         VN._is_type_safe = lambda a: True
+        # the SymPy backend with the same recording lib: its glue (constructors, _wrap_result, methods) is lib-independent;
+        # what SympyLib itself computes is the subject of C08's eval_sym theorem
+        from vector.backends import sympy as VS
+        self.VS = VS
+        VS.VectorSympy.lib = lib
+        VS._is_type_safe = lambda coordinates: None
 
     def make_np(self, dim, names, mom, prefix):
         keys = [MOM.get(n, n) if mom else n for n in names]
         cols = {k: numpy.array([S.Sym("var", f"{prefix}{i}")], dtype=object) for i, k in enumerate(keys)}
         return self.vector.array(cols)
 
+    def make_sp(self, dim, names, mom, prefix):
+        keys = [MOM.get(n, n) if mom else n for n in names]
+        cls = getattr(self.VS, ("Momentum" if mom else "Vector") + f"Sympy{dim}D")
+        return cls(**{k: S.Sym("var", f"{prefix}{i}") for i, k in enumerate(keys)})
+
     def describe(self, r):
         V = self.vector
+        if isinstance(r, self.VS.VectorSympy):
+            from vector._methods import _aztype, _ltype, _ttype
+            coords = list(r.azimuthal.elements) + (list(r.longitudinal.elements) if hasattr(r, "longitudinal") else []) \
+                + (list(r.temporal.elements) if hasattr(r, "temporal") else [])
+            systems = [t3.t1.SIGN[_aztype(r).__name__]] + ([t3.t1.SIGN[_ltype(r).__name__]] if hasattr(r, "longitudinal") else []) \
+                + ([t3.t1.SIGN[_ttype(r).__name__]] if hasattr(r, "temporal") else [])
+            return {"kind": "vector", "backend": "sympy", "cls": SP2OBJ.get(type(r).__name__, type(r).__name__), "systems": systems,
+                    "coords": [t3.ser(c) for c in coords]}
         if isinstance(r, self.VN.VectorNumpy):
             names = [GEN.get(n, n) for n in r.dtype.names]
             extra = [n for n in names if n not in ("x", "y", "rho", "phi", "z", "theta", "eta", "t", "tau")]
@@ -139,7 +160,7 @@ class Runner:
         def thunk():
             loc = dict(env)
             for n, (d, names, mom) in vecs.items():
-                loc[n] = (self.make_np if kinds[n] == "numpy" else self.A.make)(d, names, mom, n)
+                loc[n] = {"numpy": self.make_np, "sympy": self.make_sp}.get(kinds[n], self.A.make)(d, names, mom, n)
             return eval(code, {"__builtins__": {"abs": abs}}, loc)
         try:
             r = thunk()
@@ -168,6 +189,14 @@ def run():
     def key(s):
         return {"dim": s[0], "sys": list(s[1]), "momentum": s[2]}
 
+    sp_recs = []
+
+    def add_sp(fam, name, text, vecs, kw=()):
+        kwenv = {k: S.Sym("var", "kw_" + k) for k in kw}
+        kwsuf = ("__kw_" + "_".join(kw)) if kw else ""
+        sp_recs.append({"fam": fam, "name": name + kwsuf, "method": name, "text": text, "kw": list(kw), "pairing": ["sympy"] * len(vecs), "srcs": [key(vecs[n]) for n in sorted(vecs)],
+                        "np": R.evaluate(text, vecs, {n: "sympy" for n in vecs}, kwenv), "py": R.evaluate(text, vecs, {n: "object" for n in vecs}, kwenv)})
+
     def add(fam, name, text, vecs, pairing, kw=()):
         kinds_np = dict(zip(sorted(vecs), pairing))
         kinds_py = {n: "object" for n in vecs}
@@ -185,6 +214,7 @@ def run():
         dim = s[0]
         for g in getters:
             add("getter", g, f"a.{g}", {"a": s}, ("numpy",))
+            add_sp("getter", g, f"a.{g}", {"a": s})
         recs.append({"fam": "getter", "name": "index0", "method": "index0", "text": "a[0]", "kw": [], "pairing": ["numpy"], "srcs": [key(s)],
                      "np": R.evaluate("a[0]", {"a": s}, {"a": "numpy"}), "py": R.evaluate("a", {"a": s}, {"a": "object"})})
         for m in to_methods:
@@ -192,6 +222,7 @@ def run():
             choices = [()] + [(p,) for p in params] + ([tuple(params)] if len(params) == 2 else [])
             for ch in choices:
                 add("conversion", m, f"a.{m}(" + ", ".join(f"{p}={p}" for p in ch) + ")", {"a": s}, ("numpy",), kw=ch)
+                add_sp("conversion", m, f"a.{m}(" + ", ".join(f"{p}={p}" for p in ch) + ")", {"a": s}, kw=ch)
         for m in ("to_Vector2D", "to_Vector3D", "to_Vector4D", "to_2D", "to_3D", "to_4D"):
             tgt = int(m[-2])
             base = [()]
@@ -201,8 +232,11 @@ def run():
                 base = [()] + singles + pairs
             for ch in base:
                 add("conversion", m, f"a.{m}(" + ", ".join(f"{p}={p}" for p in ch) + ")", {"a": s}, ("numpy",), kw=ch)
+                add_sp("conversion", m, f"a.{m}(" + ", ".join(f"{p}={p}" for p in ch) + ")", {"a": s}, kw=ch)
         for nm, t in unary.items():
             add("unary", nm, t.format(v="a"), {"a": s}, ("numpy",))
+            if not nm.startswith("np_"):
+                add_sp("unary", nm, t.format(v="a"), {"a": s})
     for s1, s2 in itertools.product(srcs, srcs):
         (d1, n1, m1), (d2, n2, m2) = s1, s2
         if d1 != d2 and (n1 != t3.SYS[d1][-1] or n2 != t3.SYS[d2][0]):
@@ -217,14 +251,19 @@ def run():
                 pairings += [("numpy", "object"), ("object", "numpy")]
             for pr in pairings:
                 add("binary", nm, t.format(a="a", b="b"), {"a": s1, "b": s2}, pr)
-    return recs
+            if not nm.startswith("np_") and (d1 != d2 or n1 == t3.SYS[d1][(len(n2) + d2) % len(t3.SYS[d1])] or n2 == t3.SYS[d2][0] or typed and n1 == t3.SYS[d1][-1]):
+                add_sp("binary", nm, t.format(a="a", b="b"), {"a": s1, "b": s2})
+    return recs, sp_recs
 
 
 if __name__ == "__main__":
-    recs = run()
+    recs, sp_recs = run()
     out = sys.argv[1] if len(sys.argv) > 1 else os.path.join(ROOT, "build", "npapi.json")
     json.dump(recs, open(out, "w"))
-    cnt = {}
+    json.dump(sp_recs, open(out.replace("npapi", "spapi"), "w"))
+    cnt, cnts = {}, {}
     for r in recs:
         cnt[r["fam"]] = cnt.get(r["fam"], 0) + 1
-    print(json.dumps({"records": cnt}))
+    for r in sp_recs:
+        cnts[r["fam"]] = cnts.get(r["fam"], 0) + 1
+    print(json.dumps({"records": cnt, "sympy_records": cnts}))
